@@ -120,8 +120,16 @@ static void OwnerMain()
          else if ((k == 1)&&(NonNullSent() > M.replies.size())) {DrainReplies(true); vs::OpBoundary();}
       }
       if (gen()%2) while (NonNullSent() > M.replies.size()) {DrainReplies(true); vs::OpBoundary();}    // sometimes wait for all replies before shutting down
-      TL("OShutdown", 'O', -1); tl_curMsg = 0;
-      g_t->ShutdownInternalThread(true);
+      tl_curMsg = 0;
+      if (gen()%3 == 0) {
+         // the two-call form: ask the thread to quit now, collect it later
+         TL("OShutdownNoWait", 'O', -1); g_t->ShutdownInternalThread(false); vs::OpBoundary();
+         if (gen()%2) {DrainReplies(false); vs::OpBoundary();}
+         TL("OWaitExit", 'O', -1); (void) g_t->WaitForInternalThreadToExit();
+      } else {
+         TL("OShutdown", 'O', -1);
+         g_t->ShutdownInternalThread(true);
+      }
       for (int k=0; k<2; k++) vs::ForgetSocket(&g_t->_threadData[k]);    // CloseSockets() ran inside the join
       TL("OJoin", 'O', -1);
       vs::OpBoundary();
